@@ -209,11 +209,13 @@ Example C30_wildcard_multiterm_refuted :
    PRNode (NBool BAnd [NTerm (bs "_default_") (bs "a"); NWild (bs "_default_") (bs "?b")])).
 Proof. vm_compute. reflexivity. Qed.
 
-(* C30-string-bound: a string bound that reads as a number, or a doubly quoted one *)
+(* C30-string-bound: a string bound that reads as a number, a doubly quoted one, or the empty string (from a
+   lone backslash) *)
 Example C30_string_bound_refuted :
   rt fd_impl (bs "@a:>\1") = (PRNode (NCmp (bs "@a") Gt (CStr (bs "1"))), PRNode (NCmp (bs "@a") Gt (CInt 1)))
-  /\ snd (rt fd_impl (bs "@a:[""""a"""" TO 5]")) = PRNode (NRange (bs "@a") (CStr (bs "a")) true (CInt 5) true).
-Proof. vm_compute. split; reflexivity. Qed.
+  /\ snd (rt fd_impl (bs "@a:[""""a"""" TO 5]")) = PRNode (NRange (bs "@a") (CStr (bs "a")) true (CInt 5) true)
+  /\ rt fd_impl (bs "x:{\ TO a}") = (PRNode (NRange (bs "x") (CStr []) false (CStr (bs "a")) false), PRError).
+Proof. vm_compute. repeat split; reflexivity. Qed.
 
 (* C30-not-not: NOT NOT inside an AND is printed without parentheses *)
 Example C30_not_not_refuted :
